@@ -354,6 +354,12 @@ Definition oracle_c09 (k : acase) (o : obs) : list Z :=
   let x := a_x k in
   let d := o_dec o in
   let f := o_cond o in
+  (* Quantize to an exponent inside the limits that lies more than MaxExponent below the operand's: the property's
+     "does not fit" case (NaN + InvalidOperation), not an exponent-limit error *)
+  if wf_case k && is_finite x && (match a_op k with OQuantize => true | _ => false end)
+     && (MinExponent <=? a_e k) && (a_e k <=? MaxExponent) && (exp x - a_e k >? MaxExponent) && negb (coeff x =? 0)
+  then flag (form_eqb (form_of d) NaN && InvalidOperation f && negb (Underflow f) && negb (Overflow f)
+             && negb (system_err (o_err o))) O_QUANTIZE else
   if negb (wf_case k) || negb (is_finite x) || system_err (o_err o) then [] else
   match a_op k with
   | OQuantize =>
@@ -361,6 +367,12 @@ Definition oracle_c09 (k : acase) (o : obs) : list Z :=
       (* a target exponent beyond the package limits cannot be the exponent of a well-formed
          Decimal: the property does not say what happens there *)
       if (e <? MinExponent) || (e >? MaxExponent) then [] else
+      (* more than MaxExponent (>= Precision) digits would have to be appended: a non-zero coefficient cannot fit
+         (nothing that large is computed here); for a zero the limits leave the outcome open *)
+      if exp x - e >? MaxExponent then
+        (if coeff x =? 0 then []
+         else flag (form_eqb (form_of d) NaN && InvalidOperation f && negb (Underflow f) && negb (Overflow f)) O_QUANTIZE)
+      else
       let '(q, inex) := quantize_int (rounding c) x e in
       let invalid := (ndigits q >? prec c) || (e <? etiny c) || (e >? emax c)
                      || (negb (q =? 0) && (e + ndigits q - 1 >? emax c)) in
@@ -439,6 +451,9 @@ Definition oracle_c02_ext (k : acase) (o : obs) : list Z :=
   | OQuantize =>
       let e := a_e k in
       if (e <? MinExponent) || (e >? MaxExponent) then [] else
+      if exp x - e >? MaxExponent then
+        (if coeff x =? 0 then [] else flag (InvalidOperation f && negb (Underflow f) && negb (Overflow f)) O_CONDFLAGS)
+      else
       let '(q, inex) := quantize_int (rounding c) x e in
       let invalid := (ndigits q >? prec c) || (e <? etiny c) || (e >? emax c)
                      || (negb (q =? 0) && (e + ndigits q - 1 >? emax c)) in
